@@ -1,5 +1,5 @@
 """C11 - forged, foreign or modified frames are rejected; garbage never breaks a session."""
-import os, json, subprocess
+import os, json, re, subprocess
 import vlib
 
 PROP_FILES = ['Properties/C11']
@@ -208,7 +208,7 @@ def correspondence(ctx, verdict, pr):
             corr_items[c['id']] = items
         elif c['op'] == 'FOREIGN':
             mlines.append('%s DEC %d %s %s' % (c['id'], c['m2'], hx(c['key2']), msg))
-    mrc, merr, mo = run_model(ctx, mlines, 'phase2')
+    mrc, merr, mo = run_model(ctx, mlines, 'phase2', nproc=6 if ctx.quick() else 12)
     if mrc != 0:
         res['broken'].append(('extracted model c11 failed (phase 2)', merr[-2000:]))
 
@@ -224,7 +224,8 @@ def correspondence(ctx, verdict, pr):
             seen_sig[sig] += 1
             return
         seen_sig[sig] = 1
-        if nfail[0] >= 3:
+        is_known = any(re.fullmatch(f['signature'], sig) for f in vlib.known_findings('C11') if f.get('status', 'open') == 'open')
+        if nfail[0] >= 3 and not is_known:
             return
         r = verdict.oracle_failure(sig, 'C11 oracle: ' + what, rep)
         if r != 'known':
